@@ -2,6 +2,7 @@
 //! OUT_DIR contents, crashes.  Child protocol as in statics_cases.rs (use through `capture`).
 //! A case is a sequence of ops separated by spaces:
 //!   W:<relpath>:<content>   write an input file (parents created)
+//!   T:<relpath>:<content>   write an input file keeping the modification time it had (cp -p, rsync -t, an edit within the same second)
 //!   M:<reldir>              create an input directory
 //!   X:<relpath>             remove an input file or directory tree
 //!   N:<from>:<to>           rename an input file or directory
@@ -147,6 +148,19 @@ pub fn run() {
                         std::fs::create_dir_all(d).unwrap();
                     }
                     std::fs::write(&p, unhex(f[2])).unwrap();
+                }
+                "T" => {
+                    let p = base.join(s(f[1]));
+                    let old = std::fs::metadata(&p).and_then(|m| m.modified()).ok();
+                    if let Some(d) = p.parent() {
+                        std::fs::create_dir_all(d).unwrap();
+                    }
+                    std::fs::write(&p, unhex(f[2])).unwrap();
+                    if let Some(t) = old {
+                        if let Ok(fh) = std::fs::OpenOptions::new().write(true).open(&p) {
+                            let _ = fh.set_modified(t);
+                        }
+                    }
                 }
                 "M" => std::fs::create_dir_all(base.join(s(f[1]))).unwrap(),
                 "X" => {
